@@ -1073,6 +1073,9 @@ def process(run, cases, prop):
         still = set(bad[i] for i in again)
         for i in bad:
             case, data, index, oracle_bad = file_meta[i]
+            if i in still and oracle_bad:
+                run.count("model_mismatch_on_a_case_the_oracle_already_reported")
+                continue
             if i not in still:
                 run.count("agrees_with_unfixed_model_only")
                 if prop == "C08" and data is not None and not oracle_bad:
